@@ -14,7 +14,9 @@ Inductive case :=
 (* integer; observed encode_varint, read_varint(encode) = (value, position) *)
 | Varint (i : Z) (e : res string) (r : res (Z * Z))
 (* bytes; observed read_varint = (value, position) *)
-| ReadV (inp : string) (r : res (Z * Z)).
+| ReadV (inp : string) (r : res (Z * Z))
+(* input bytes; the parsed commands; the parsed OBJECT serialised again; and serialised once more after OP_1 was appended to its cmds *)
+| Reser (inp : string) (cmds : res (list ecmd)) (again : res string) (after_append : res string).
 
 Definition unhexr (r : res string) : res bytes := rmap unhex r.
 Definition eqb_rb := beq_res beq_bytes.
@@ -65,6 +67,24 @@ Definition check_case (c : case) : Z :=
                                 else le2z (firstn (Z.to_nat (vs - 1)) (skipn 1 b)) in
                 (vs <=? Z.of_nat (List.length b)) && (pos =? vs + declared) && (pos <=? Z.of_nat (List.length b))
             end
+        end in
+      verdict agrees prop
+  | Reser inp ecmds again after =>
+      let b := unhex inp in
+      let m_cmds := rmap fst (parse (mkstream b)) in
+      let m_again := bind m_cmds serialize in
+      let m_after := bind m_cmds (fun c => serialize (c ++ [Op 81])) in
+      let agrees := eqb_cmdsr m_cmds (rmap (map to_cmd) ecmds) && eqb_rb m_again (unhexr again) && eqb_rb m_after (unhexr after) in
+      let prop :=
+        match ecmds with
+        | Err => true
+        | Ok es =>
+            let items := map to_item es in
+            if forallb item_wf items then
+              eqb_rb (unhexr again) (opt_res (script_wire items)) && eqb_rb (unhexr after) (opt_res (script_wire (items ++ [SOp 81])))
+            else if existsb (fun i => match i with SPush d => (520 <? Z.of_nat (List.length d)) | _ => false end) items
+            then negb (is_ok again)
+            else true
         end in
       verdict agrees prop
   | Varint i e r =>
